@@ -616,6 +616,83 @@ def gen_speckey():
             for tail in (False, True)]
 
 
+# ---------------------------------------------------------------------------
+# arithmetic / unary steps after a wildcard (entries that do not support them are dropped) and equal-but-differently-typed tails
+
+def run_tail(case):
+    name = case
+    import operator as op_
+    rows_seq = [[10, 11, 12], (20, 21), 'ab', {1: 'one', True: 'yes'}, {1.0: 'float-key'}, 5, None, [30]]
+    nums = [1, 'a', None, 2.5, [3], True]
+    MENU = {
+        'neg-after-star': (nums, lambda: -T.__star__(), lambda e: -e),
+        'invert-after-star': (nums, lambda: ~T.__star__(), lambda e: ~e),
+        'neg-after-starstar': ({'a': 1, 'b': {'c': 2.5, 'd': 'x'}}, lambda: -T.__starstar__(), lambda e: -e),
+        'mul-after-star': (nums, lambda: T.__star__() * 2, lambda e: e * 2),
+        'mul-float-after-star': (nums, lambda: T.__star__() * 2.0, lambda e: e * 2.0),
+        'floordiv-after-star': (nums, lambda: T.__star__() // 2, lambda e: e // 2),
+        'floordiv-float-after-star': (nums, lambda: T.__star__() // 2.0, lambda e: e // 2.0),
+        'index-1': (rows_seq, lambda: T.__star__()[1], lambda e: e[1]),
+        'index-1.0': (rows_seq, lambda: T.__star__()[1.0], lambda e: e[1.0]),
+        'index-True': (rows_seq, lambda: T.__star__()[True], lambda e: e[True]),
+        'index-0': (rows_seq, lambda: T.__star__()[0], lambda e: e[0]),
+        'index-False': (rows_seq, lambda: T.__star__()[False], lambda e: e[False]),
+        'index-0.0': (rows_seq, lambda: T.__star__()[0.0], lambda e: e[0.0]),
+    }
+    return MENU[name] if isinstance(name, str) else None
+
+
+TAIL_NAMES = ['neg-after-star', 'invert-after-star', 'neg-after-starstar', 'mul-after-star', 'mul-float-after-star', 'floordiv-after-star',
+              'floordiv-float-after-star', 'index-1', 'index-1.0', 'index-True', 'index-0', 'index-False', 'index-0.0']
+
+
+def eval_tail(name):
+    target, mk, fn = run_tail(name)
+    entries = children(target) if 'starstar' not in name else descend(target)
+    want = []
+    for e in entries:
+        try:
+            want.append(fn(e))
+        except Exception:
+            pass
+    try:
+        got = glom(target, mk())
+    except Exception as e:
+        return want, 'raised %r' % (e,)
+    return want, got
+
+
+def run_tail_history(case):
+    """case = sequence of tail names evaluated one after the other in ONE process (forked child): each must give what it gives alone"""
+    from .c13 import in_child
+
+    def work():
+        out = []
+        for name in case:
+            want, got = eval_tail(name)
+            ok = isinstance(got, list) and len(got) == len(want) and all(type(a) is type(b) and a == b for a, b in zip(got, want))
+            out.append((name, ok, repr(want)[:200], repr(got)[:200]))
+        return out
+    st, res = in_child(work)
+    if st != 'ok':
+        raise RuntimeError(res)
+    for name, ok, want, got in res:
+        if not ok:
+            return R({'expected': '%s -> %s' % (name, want), 'observed': got, 'history': case}, 'tail')
+    return R(None, 'n=%d' % len(case), nontrivial=True, steps=len(case), tags=set(case))
+
+
+def gen_tail_histories():
+    twins = [['index-1', 'index-1.0', 'index-True'], ['index-0', 'index-False', 'index-0.0'], ['mul-after-star', 'mul-float-after-star'],
+             ['floordiv-after-star', 'floordiv-float-after-star']]
+    cases = [[n] for n in TAIL_NAMES]
+    for grp in twins:
+        for a, b in itertools.permutations(grp, 2):
+            cases.append([a, b])
+            cases.append([a, b, a])
+    return cases
+
+
 def subs(tier, only=None):
     from ..engine import fast_tracebacks
     fast_tracebacks()
@@ -634,6 +711,10 @@ def subs(tier, only=None):
             rule='case = (rows whose entries name their own key, key spec T[..] | Spec | Val | callable, * | **, T | S | Path spelling, with/without a further step): '
                  'the key is evaluated against each entry separately; entries where it or the access fails are left out',
             min_nontrivial=100, min_outcomes=3, required_tags=['T-pick', '**']),
+        Sub('steps-after-wildcards-histories', gen_tail_histories(), run_tail_history,
+            rule='case = sequence of 1-3 T expressions (unary / arithmetic / index step after * or **; indexes and operands that are equal but of different type: '
+                 '1 / 1.0 / True) evaluated one after the other in one process: entries for which the step fails are dropped, every expression gives what it gives alone',
+            min_nontrivial=30, min_outcomes=2, required_tags=['neg-after-star', 'index-1.0']),
         Sub('wildcards-after-cache-overflow', [[0, ['a.*.z', '**.z', 'a.*.*']], [10050, ['a.*.z', '**.z', 'a.*.*', '*.y.w.*']], [10050, ['a.**', '*']]],
             run_overflow, rule='case = (number of distinct path strings parsed first, fresh wildcard texts): the text spelling must still equal the T spelling '
                                'once the path-text cache (bound 10000) is full; each case in a forked child', min_nontrivial=2, min_outcomes=1, parallel=False,
